@@ -43,9 +43,14 @@ def generate(seed: int, tier: str, prop: str) -> dict:
     r = rng.random()
     if prop == 'C05':
         base = 'hreal' if r < 0.3 else ('hboundary' if r < 0.65 else ('hboundary2' if r < 0.87 else 'hlow'))
+    elif prop == 'C02':
+        base = 'hreal' if r < 0.45 else ('hboundary' if r < 0.6 else ('hhalving' if r < 0.85 else 'hlow'))
     else:
         base = 'hreal' if r < 0.6 else ('hboundary' if r < 0.8 else 'hlow')
     cfg = {'base': base, 'hard': rng.random() < 0.3 and base != 'hlow'}
+    if base == 'hhalving':
+        cfg['k'] = rng.choice([1, 1, 2, 3, 6, 29, 30, 31, 63, 64])
+        cfg['j'] = rng.randrange(4)
     if base == 'hboundary':
         cfg['k'] = rng.randrange(5)
         span = 1_209_600
@@ -65,7 +70,23 @@ def generate(seed: int, tier: str, prop: str) -> dict:
     else:
         n_ops = rng.randint(8, 30 if tier == 'quick' else 60)
     ops = []
-    if base == 'hboundary2':
+    if base == 'hhalving':
+        # walk up to the halving linearly, then put forks, reward forgeries and honest blocks right on it
+        for _ in range(cfg['j'] % 4):
+            m = gen_mine(rng, latest_bias=1.0, max_txs=2)
+            m['tip'] = -1
+            ops.append(m)
+        pre = cfg['j'] % 4
+        for _ in range(rng.randint(2, 5)):
+            if rng.random() < 0.5:
+                m = gen_mine(rng)
+                m['tip'] = pre
+                ops.append(m)
+            else:
+                ops.append({'op': 'offer', 'kind': rng.choice(['reward_prev_era', 'reward_prev_era', 'reward_plus_one', 'reward_split_over']),
+                            'tip': pre, 'a': rng.randrange(1000), 'b': rng.randrange(1000), 'dt': rng.choice([1, 60, 600]),
+                            'clock': 0, 'via': rng.choice(['memory', 'bytes'])})
+    elif base == 'hboundary2':
         # both tips are one block below the boundary: boundary blocks on the head's branch (stored index 0) and on the
         # other branch (stored index 1), honest and forged
         for _ in range(rng.randint(2, 5)):
